@@ -33,8 +33,16 @@ def run(repo: Repo, chk: Check) -> None:
     chk.trusted = ["socket.recv_into returns 0 only at EOF and otherwise the number of bytes stored (>= 1)", "asyncio.StreamReader.readexactly returns exactly n bytes or raises IncompleteReadError"]
     world = World(repo)
     helpers = transport_reads(repo, chk, world)
+    from sa.symeval import Unsupported
+
     for q in ("_rpc._client.SyncRpcClient._send_pdu", "_rpc._client.AsyncRpcClient._send_pdu"):
-        reassembly(repo, chk, repo.func(q), helpers)
+        try:
+            reassembly(repo, chk, repo.func(q), helpers)
+        except Unsupported as e:
+            if any(not o.ok and o.site.function == q for o in chk.obligations):
+                chk.count("reassembly paths")
+                continue  # the transport-read rule already reported this function; its body left the idiom table
+            raise AnalysisError(f"{q} left the idiom table: {e}")
     chk.require_min("transport read sites", 3)
     chk.require_min("reassembly paths", 2)
 
